@@ -566,6 +566,13 @@ func c13RunConcHistory(run *vk.Run, hidx int, r *rand.Rand, keys []c13cKeySpec, 
 	defer s.Close()
 	ng := 4 + r.Intn(5)
 	nops := 200
+	for _, ks := range keys {
+		if ks.Model == 'l' && ng > 5 {
+			// appends return nothing: with more than ~5 writers the number of candidate
+			// orders porcupine has to refute grows beyond the checker timeout
+			ng = 4 + ng%2
+		}
+	}
 	if os.Getenv("VERIF_RACE") == "1" {
 		// the instrumented repeat is there for the race detector; porcupine itself runs
 		// ~100x slower instrumented, so keep its histories small
@@ -621,12 +628,15 @@ func c13RunConcHistory(run *vk.Run, hidx int, r *rand.Rand, keys []c13cKeySpec, 
 		res := porcupine.CheckOperationsTimeout(c13cModel, ops, c13cCheckTimeout(run))
 		agg.checkerSpent += time.Since(t0)
 		run.Count("checker_ms_total", time.Since(t0).Milliseconds())
+		run.Count("checker_ms_"+ks.Profile, time.Since(t0).Milliseconds())
+		run.Max("checker_ms_max_"+ks.Profile, time.Since(t0).Milliseconds())
 		run.Max("checker_ms_max", time.Since(t0).Milliseconds())
 		switch res {
 		case porcupine.Ok:
 			run.Count("key_histories_linearizable", 1)
 		case porcupine.Unknown:
 			run.Count("checker_timeout_unknown", 1)
+			run.Count("checker_timeout_unknown_"+ks.Profile, 1)
 		case porcupine.Illegal:
 			run.Count("key_histories_not_linearizable", 1)
 			agg.illegal[ks.Profile] = true
@@ -659,6 +669,9 @@ func c13cCheckBudget(run *vk.Run) time.Duration {
 
 func c13cBudget(run *vk.Run, quick, thorough int) int {
 	n := run.Pick(quick, thorough)
+	if v, err := strconv.Atoi(os.Getenv("VERIF_C13_CONC_N")); err == nil && v > 0 {
+		n = v // debugging knob only
+	}
 	if os.Getenv("VERIF_RACE") == "1" {
 		n = n / 4
 		if n < 8 {
@@ -685,7 +698,7 @@ func TestVerifC13Concurrent(t *testing.T) {
 	vk.Quiet()
 	run := vk.Start(t, "C13", "concurrent")
 	defer run.Finish()
-	run.Rule("4-8 goroutines x 200 operations on 2 keys of one memory.Storage, key families per history from {register/setnx, register/cas, list, counter}, ttl in {0,1h}, unique written values; per-key history checked with porcupine (timeout 60 s thorough / 15 s quick => Unknown => inconclusive); distinct = (family, unordered pair of operation kinds observed overlapping in time)")
+	run.Rule("4-8 goroutines (4-5 when a list key is involved: appends return nothing, more writers make the check intractable) x 200 operations on 2 keys of one memory.Storage, key families per history from {register/setnx, register/cas, list, counter}, ttl in {0,1h}, unique written values; per-key history checked with porcupine (timeout 60 s thorough / 15 s quick => Unknown => inconclusive); distinct = (family, unordered pair of operation kinds observed overlapping in time)")
 	nh := c13cBudget(run, 60, 2000)
 	r := run.Rand("conc")
 	combos := [][]c13cKeySpec{
